@@ -68,7 +68,7 @@ def run_case(prog, inputs, mode='plain', with_refs=True, fn_wrap=None, per_emit=
             res.model_errors = []
             for i, (e, v, nmd) in enumerate(inputs):
                 md = mds[i]
-                x = tuple(v) if isinstance(v, list) else v
+                x = _val(v)
                 log.add('ENTRY', e, i, x)
                 # model first (pure), catching model-side exceptions separately
                 m_exc = None
